@@ -131,7 +131,7 @@ def check_c05(tier):
         for t, o in r.lines:
             f.write(json.dumps(o) + "\n")
     rp = os.path.join(wd, "replay.ndjson")
-    vh_to_file(["bundle-read"], rp, stdin_path=vp, timeout=3000)
+    vlib.vh_resilient(["bundle-read"], rp, stdin_path=vp, timeout=3000)
     fp = os.path.join(wd, "fuzz.ndjson")
     vh_to_file(["bundle-fuzz", tier], fp, timeout=3000)
     allp = os.path.join(wd, "rd.ndjson")
